@@ -19,7 +19,9 @@ def run(tier):
         free = [("tumbling", dict(size=2, moo=1, al=2), 60, 40), ("sliding", dict(size=4, slide=2, moo=2, al=2), 40, 40),
                 ("tumbling", dict(size=3, moo=0, al=0), 30, 40),
                 # long allowances with many late rows: several late rows for one fired window, with newer windows firing in between
-                ("tumbling", dict(size=2, moo=0, al=6, latep=0.3), 40, 40), ("sliding", dict(size=4, slide=2, moo=1, al=6, latep=0.3), 40, 40)]
+                ("tumbling", dict(size=2, moo=0, al=6, latep=0.3), 40, 40), ("sliding", dict(size=4, slide=2, moo=1, al=6, latep=0.3), 40, 40),
+                # an allowance SHORTER than the window: a fired window runs out of its allowance while the current one already holds rows
+                ("tumbling", dict(size=8, moo=1, al=2), 40, 50), ("tumbling", dict(size=10, moo=1, al=1), 30, 50)]
     else:
         plan = [("tumbling", dict(size=2, moo=0, al=1, maxts=6, maxev=5, cap=40000)),
                 ("tumbling", dict(size=2, moo=1, al=2, maxts=6, maxev=5, cap=40000)),
@@ -29,7 +31,8 @@ def run(tier):
                 ("tumbling", dict(size=2, moo=2, al=0, maxts=6, maxev=5, cap=20000))]
         free = [("tumbling", dict(size=2, moo=1, al=2), 400, 60), ("sliding", dict(size=4, slide=2, moo=2, al=2), 300, 60),
                 ("tumbling", dict(size=3, moo=0, al=0), 200, 60), ("sliding", dict(size=3, slide=1, moo=1, al=0), 200, 50),
-                ("tumbling", dict(size=2, moo=0, al=6, latep=0.3), 300, 60), ("sliding", dict(size=4, slide=2, moo=1, al=6, latep=0.3), 300, 60), ("sliding", dict(size=3, slide=1, moo=0, al=4, latep=0.25), 200, 50)]
+                ("tumbling", dict(size=2, moo=0, al=6, latep=0.3), 300, 60), ("sliding", dict(size=4, slide=2, moo=1, al=6, latep=0.3), 300, 60), ("sliding", dict(size=3, slide=1, moo=0, al=4, latep=0.25), 200, 50),
+                ("tumbling", dict(size=8, moo=1, al=2), 300, 60), ("tumbling", dict(size=10, moo=1, al=1), 200, 60)]
     extra = [("tumbling", dict(size=2, moo=1, al=0, maxts=6, maxev=4, chancap=1)), ("sliding", dict(size=4, slide=2, moo=1, al=0, maxts=6, maxev=4, chancap=1))]
     if tier != "quick":
         extra += [("tumbling", dict(size=2, moo=0, al=1, maxts=6, maxev=4, chancap=1)), ("session", dict(size=2, moo=1, al=0, maxts=5, maxev=4, chancap=1))]
